@@ -47,6 +47,7 @@ Record InvCore (ls : N) (cache pend : list (N * obj)) (d : disk) (m : mem) : Pro
                 is_indexed (m_idx m) u = true /\ assoc u cache = Some o;
   ic_pnodup : NoDup (map fst pend);
   ic_cache  : forall u o, must_cache m = true -> assoc u cache = Some o -> stored pend d m u = Some o;
+  ic_nocache : must_cache m = false -> cache = [];
   ic_schema : exists sf, d_schema d = Some (SOk sf) /\ sf_shape sf = ls /\ sf_fields sf = m_fields m /\
                          st_ext (sf_set sf) = st_ext (m_set m) /\
                          st_compress (sf_set sf) = st_compress (m_set m)
@@ -100,6 +101,10 @@ Fixpoint clash (fds : list fdesc) (ks ks2 : list key) : bool :=
 Definition uniq_conflict (fds : list fdesc) (a : list (N * obj)) (u : N) (ks : list key) : bool :=
   existsb (fun p => negb (N.eqb (fst p) u) && clash fds ks (o_keys (snd p))) a.
 
+(* Create on an existing collection: the descriptors must be the recorded ones *)
+Definition fds_compat (fds0 fds : list fdesc) : bool :=
+  Nat.eqb (length fds0) (length fds) && forallb (fun p => fdesc_eqb (fst p) (snd p)) (combine fds0 fds).
+
 Definition has_key (u : N) (a : list (N * obj)) : bool :=
   match assoc u a with Some _ => true | None => false end.
 
@@ -125,6 +130,8 @@ Definition spec_step (hk : hooks) (a : option spec) (o : op) : option spec * out
       let fds := sp_fds sp in
       let a0 := sp_map sp in
       match o with
+      | OCreate _ fds' =>            (* settings (cache, asynchronous writes) may change: not the map *)
+          (a, RUnit (if fds_compat fds fds' then Ok tt else Err EFieldDesc))
       | OInsert u fresh ob =>
           let o' := prep hk fds ob in
           let u' := if N.eqb u 0 then fresh else u in
@@ -400,6 +407,7 @@ Proof.
   - intros u o Hu. rewrite (view_indexed _ _ _ V). apply (ic_pend _ _ _ _ _ I u o Hu).
   - apply (ic_pnodup _ _ _ _ _ I).
   - intros u o. rewrite (view_must_cache _ _ V), (view_stored _ _ _ _ _ V). apply (ic_cache _ _ _ _ _ I).
+  - rewrite (view_must_cache _ _ V). apply (ic_nocache _ _ _ _ _ I).
   - rewrite H1, H2. apply (ic_schema _ _ _ _ _ I).
 Qed.
 
@@ -424,6 +432,7 @@ Proof.
   intros I. constructor; try (apply I).
   - intros u o H. discriminate.
   - intros u o _ H. discriminate.
+  - intros _. reflexivity.
 Qed.
 
 (* ================================================================ control *)
@@ -520,16 +529,17 @@ Qed.
 
 (* ================================================================ reads *)
 
-Lemma cache_put_ok ls cache pend d m u o : InvCore ls cache pend d m -> stored pend d m u = Some o ->
-  InvCore ls (put u o cache) pend d m.
+Lemma cache_put_ok ls cache pend d m u o : InvCore ls cache pend d m -> must_cache m = true ->
+  stored pend d m u = Some o -> InvCore ls (put u o cache) pend d m.
 Proof.
-  intros I S. constructor; try (apply I).
+  intros I Hmc S. constructor; try (apply I).
   - intros v o' Hv. split; [apply (ic_pend _ _ _ _ _ I v o' Hv)|]. rewrite rf_assoc_put.
     destruct (N.eqb v u) eqn:E; [|apply (ic_pend _ _ _ _ _ I v o' Hv)].
     apply N.eqb_eq in E. subst v. rewrite (ic_stored_pend _ _ _ _ _ I u o' Hv) in S. symmetry. exact S.
-  - intros v o' Hmc. rewrite rf_assoc_put. destruct (N.eqb v u) eqn:E.
+  - intros v o' Hmc0. rewrite rf_assoc_put. destruct (N.eqb v u) eqn:E.
     + apply N.eqb_eq in E. subst v. intros H. inversion H; subst. exact S.
-    + apply (ic_cache _ _ _ _ _ I v o' Hmc).
+    + apply (ic_cache _ _ _ _ _ I v o' Hmc0).
+  - intros Hc. congruence.
 Qed.
 
 Lemma get_with_ok ls h d m u : InvCore ls (h_cache h) (h_pend h) d m ->
@@ -551,7 +561,7 @@ Proof.
   - rewrite (Hmiss eq_refl). destruct (file_lookup (file_of m u) (d_files d)) as [c|] eqn:F.
     + destruct (ic_lookup_ok _ _ _ _ _ I u c F) as [o ->].
       assert (S : stored (h_pend h) d m u = Some o) by (rewrite (Hmiss eq_refl); reflexivity).
-      destruct (must_cache m).
+      destruct (must_cache m) eqn:Emc.
       * exists (set_cache h (put u o (h_cache h))).
         split; [reflexivity|]. split; [reflexivity|]. split; [reflexivity|]. cbn [set_cache h_cache].
         apply cache_put_ok; assumption.
